@@ -497,7 +497,7 @@ func ReadBytes(s TStruct, proto string, b []byte) (int, error) {
 func init() {
 	RegisterOp("types", func(r *Registry, raw json.RawMessage) interface{} {
 		keys := func(m interface{}) []string {
-			var out []string
+			out := []string{}
 			for _, k := range reflect.ValueOf(m).MapKeys() {
 				out = append(out, k.String())
 			}
